@@ -11,7 +11,7 @@
 -/
 import MdIt.Props.Block
 
-namespace MdIt.Block
+namespace MdIt.Block.C12
 open MdIt.Lines (LineOffset byteLen NoTerm AllBlank indentWidth lead)
 
 /-! ## the state at the only line -/
@@ -354,4 +354,4 @@ theorem parseBlocks_fence_line (cfg : Cfg) (pre post : List RuleId)
     (engine cfg (f + 1)).2 (f + 2)) (f + 2) false from rfl, htok]
   rfl
 
-end MdIt.Block
+end MdIt.Block.C12
